@@ -75,7 +75,7 @@ def vc_swap_blades(H, lengths=range(0, MAXLEN + 1)):
             interp = Interp(ctx, loop_specs={('_swap_blades', 0): spec}, source_name=REL)
             clo = H.closure(interp, fuc)
             clo(Spelling(b1), Spelling(_cells('b', 2)), Spelling(tgt))
-            ctx.oblige('loop 0 is reached', False, 'inv')
+            raise OutOfSubset('loop 0 is reached' + ' -- shape not recognised, contract does not apply')
         H.run_paths(fuc, f'entry,n1={n1}', body)
 
     # ---------------------------------------------------------------- (A) loop 0 step for a current list of length m
@@ -107,7 +107,7 @@ def vc_swap_blades(H, lengths=range(0, MAXLEN + 1)):
                 new, sw, el = env.lookup('blade1'), env.lookup('swaps'), env.lookup('eliminated')
                 if not (isinstance(new, list) and all(isinstance(x, SChar) for x in new)
                         and isinstance(el, list) and el and el[0] is marker):
-                    ctx.oblige('inv0: blade1 / eliminated keep their list shape', False, 'inv')
+                    raise OutOfSubset('inv0: blade1 / eliminated keep their list shape' + ' -- shape not recognised, contract does not apply')
                     return
                 swt = sw.t if isinstance(sw, SInt) else z3.IntVal(sw)
                 for x in new:
@@ -135,7 +135,7 @@ def vc_swap_blades(H, lengths=range(0, MAXLEN + 1)):
                            z3.Implies(hyp, _member(q, new) == z3.Xor(InB1(q), pre1)), 'inv')
                 added = el[1:]
                 if not all(isinstance(x, SChar) for x in added):
-                    ctx.oblige('inv0: eliminated holds characters', False, 'inv')
+                    raise OutOfSubset('inv0: eliminated holds characters' + ' -- shape not recognised, contract does not apply')
                     return
                 in_el1 = z3.Or(InElim(q), _member(q, added))
                 ctx.oblige('inv0-step: c in eliminated  <=>  c in blade1_0 and c in blade2[:t+1]',
@@ -209,13 +209,17 @@ def vc_swap_blades(H, lengths=range(0, MAXLEN + 1)):
             def nothing(interp, env, it, *a):
                 pass
 
+            seen_loops = set()
+
             def havoc0(interp, env, it, n, at_exit):
+                seen_loops.add(0)
                 env.vars['blade1'] = list(cur0)
                 env.vars['swaps'] = SInt(s0)
                 env.vars['eliminated'] = [marker]
 
             def havoc1(interp, env, it, n, at_exit):
                 # exit state of loop 1: blade1 == target (invariant at i == len(target)), swaps havoced
+                seen_loops.add(1)
                 env.vars['blade1'] = list(tgt)
                 env.vars['swaps'] = SInt(s1)
             spec0 = LoopSpec(nothing, havoc0, nothing)
@@ -225,6 +229,10 @@ def vc_swap_blades(H, lengths=range(0, MAXLEN + 1)):
             interp = Interp(ctx, loop_specs={('_swap_blades', 0): spec0, ('_swap_blades', 1): spec1}, source_name=REL)
             clo = H.closure(interp, fuc)
             r = clo(Spelling(_cells('a', 1)), Spelling(_cells('b', 1)), Spelling(tgt))
+            if 0 not in seen_loops:
+                # the two loops are not (both) in the body of _swap_blades itself any more (moved into a helper, replaced):
+                # the exit-state clause has nothing to compare with
+                raise OutOfSubset('_swap_blades: the loops under contract are not in this function body (contract does not apply)')
             ok = (isinstance(r, tuple) and len(r) == 3 and isinstance(r[0], SInt)
                   and z3.eq(r[0].t, s1 if (with_target and m) else s0)
                   and isinstance(r[1], (Spelling, str)) and len(r[1]) == len(fin)
@@ -334,7 +342,7 @@ def vc_compute_sign(H):
             def establish(interp, env, it):
                 sg = env.lookup('sign')
                 if it is not elim:
-                    ctx.oblige('loop iterates over the eliminated characters', False, 'inv')
+                    raise OutOfSubset('loop iterates over the eliminated characters' + ' -- shape not recognised, contract does not apply')
                     raise PathEnd('shape')
                 st['init'] = sg
                 ok = isinstance(sg, int) and sg in (-1, 1)
@@ -352,7 +360,7 @@ def vc_compute_sign(H):
                 z1 = z3.Or(ZF(n.t), sig.zf(g))
                 n1 = z3.Xor(NF(n.t), sig.nf(g))
                 if not isinstance(sg, SSign):
-                    ctx.oblige('inv: sign stays a sign value', False, 'inv')
+                    raise OutOfSubset('inv: sign stays a sign value' + ' -- shape not recognised, contract does not apply')
                     return
                 ctx.oblige('inv-step: sign is zero iff some eliminated generator so far is null', sg.z == z1, 'inv')
                 ctx.oblige('inv-step: sign negativity == par(swaps) xor #negative eliminated generators so far',
